@@ -26,6 +26,7 @@ def run(tier):
     serialize_impls(res, facts)
     set_claim(res, facts)
     payload(res, facts)
+    wrap(res, facts)
     writers(res, facts)
     for f in CL.analyse(facts):
         if f.rule == "C14.R4":
@@ -38,10 +39,11 @@ def run(tier):
     res.floor("C14.R2", 8)
     res.floor("C14.R3", 13)
     res.floor("C14.R4", 2)
+    res.floor("C14.R5", 8)
     res.explanation = ("constant table of the 7 registered claim keys over all 17 constructors; every Serialize impl of a claim writes exactly one map entry (key field, value field); abstract interpretation of GenericBuilder::set_claim over "
                        "{empty key} x JSON variant x {one-entry map of that key}: stored under the claim's key with HashMap::insert, value = the entry's value for a one-entry map of that key, otherwise the serialised value itself; "
-                       "build_payload_from_claims maps every stored (key, value) to (key, to_value(value)) without further transformation; writers of the claim map; the parser returns the parsed authenticated payload unmodified")
-    res.extra["not_decided"] = "JSON value equality through serde_json over arbitrary trees (numbers, escapes, nesting) and the identity behaviour of wrap_value - run time; covered in part by the existing unit and property tests"
+                       "build_payload_from_claims maps every stored (key, value) to (key, to_value(value)) without further transformation; wrap_claims / wrap_value hand every entry on (identity on scalars, element-wise on arrays and objects, no filtering adaptor); writers of the claim map; the parser returns the parsed authenticated payload unmodified")
+    res.extra["not_decided"] = "JSON value equality through serde_json over arbitrary trees (numbers, escapes, nesting) - run time; covered in part by the existing unit and property tests"
     return res
 
 
@@ -255,6 +257,154 @@ def payload(res, facts):
             res.violate("C14.R3", b["id"], "payload entry transformed at build time", "; ".join(sorted(set(problems)))[:400], file=v.file(), line=b["line"])
     if n_ok == 0:
         res.violate("C14.R3", b["id"], "no successful outcome", "abstract interpretation found no path producing a payload (fail closed)", file=v.file(), line=b["line"])
+
+
+def wrap(res, facts):
+    """C14.R5: the build-time helpers wrap_claims / wrap_value hand every entry on: wrap_claims(map) is the object holding, for every
+    (k, v) of the map, exactly (k, wrap_value(v)); wrap_value is the identity on Null / Bool / Number / String, maps every element of an
+    array and every member of an object through itself and keeps keys - no adaptor that could drop, add or reorder entries.
+    Decided by abstract interpretation with per-element summaries of the iterator chains (rules/models.py m_collect_map)."""
+    def stub(I, st, args):
+        return A.Sym("wrap_value(%s)" % MD.describe(I, st, args[0]))
+
+    def interp():
+        I = A.Interp(facts, MD.MODELS)
+        I.generic_pipelines = True
+        I.fn_stubs = [(re.compile(r"generic_builder::wrap_value$"), stub)]
+        return I
+
+    def stages(o, src_name):
+        """[(kind, detail)] of the collect stages that lead from the collection `src_name` to the value returned"""
+        out = []
+        cur = src_name
+        for e in o.state.events:
+            if e[0] != "collect_map":
+                continue
+            if e[1] != cur:
+                out.append(("bad", "a collection is built from %s, not from %s" % (e[1], cur)))
+                continue
+            lossy = e[3] if len(e) > 3 else []
+            if lossy:
+                out.append(("bad", "the elements of %s pass through %s, which can drop, add or reorder entries" % (cur, ", ".join(lossy))))
+            if len(e[2]) != 1:
+                out.append(("bad", "the per-element mapping of %s depends on the element (%d alternatives)" % (cur, len(e[2]))))
+            for kd, vd, conds, unm in e[2]:
+                if unm:
+                    out.append(("bad", "unmodelled call in the per-element mapping: %s" % (unm,)))
+                elif (kd, vd) in ((None, "entry"), ("entry.0", "entry.1")):
+                    out.append(("id", cur))
+                elif (kd, vd) in ((None, "wrap_value(entry)"), ("entry.0", "wrap_value(entry.1)")):
+                    out.append(("wrap", cur))
+                else:
+                    out.append(("bad", "an element of %s is mapped to (%s, %s) instead of (key, wrap_value(value))" % (cur, kd, vd)))
+            cur = "collected(%s)" % cur
+        return out, cur
+
+    def loop_style(I, o, src_name, inner, array=False):
+        """problems of a hand-written loop `for x in src { out.insert(k, wrap_value(v)) / out.push(wrap_value(x)) }`; None when the path has no loop"""
+        items = [e for e in o.state.events if e[0] == "iter_item"]
+        inserts = [e for e in o.state.events if e[0] == "Map::insert" or (e[0].endswith("::insert") and isinstance(e[1], list))]
+        looped = any(c_ in ("iterator ends", "iterator yields an item") for c_ in o.state.cond)
+        if not items and not inserts and not looped and not (isinstance(inner, A.Seq) and inner.elems is not None):
+            return None
+        pr = []
+        for e in items:
+            if e[2] != src_name:
+                pr.append("the loop ranges over %s, not over %s" % (e[2], src_name))
+        if array:
+            got = [getattr(MD.deref(I, o.state, x), "name", repr(x)) for x in (inner.elems if isinstance(inner, A.Seq) and inner.elems is not None else [])]
+            want = ["wrap_value(%s)" % e[1] for e in items]
+            if got != want:
+                pr.append("the array built is %s, expected %s (every element once, in order, through wrap_value)" % (got, want))
+            return pr
+        got = []
+        for e in inserts:
+            if e[0] == "Map::insert":
+                got.append((e[1], e[2][1] if isinstance(e[2], tuple) else str(e[2]), e[3][1] if len(e) > 3 and isinstance(e[3], tuple) else "?"))
+            else:
+                a = e[1]
+                got.append((str(a[0]), a[1][1] if isinstance(a[1], tuple) else str(a[1]), a[2][1] if len(a) > 2 and isinstance(a[2], tuple) else "?"))
+        want = [("%s.0" % e[1], "wrap_value(%s.1)" % e[1]) for e in items]
+        if [(k, v_) for _t, k, v_ in got] != want:
+            pr.append("the entries inserted are %s, expected %s (every entry once, under its own key, its value through wrap_value)" % ([(k, v_) for _t, k, v_ in got], want))
+        tname = getattr(inner, "name", None)
+        if any(t != tname and tname not in t for t, _k, _v in got):
+            pr.append("entries are inserted into %s but %s is returned" % (sorted(set(t for t, _k, _v in got)), tname))
+        return pr
+
+    for fn in ("wrap_claims", "wrap_value"):
+        b = _fpai.find_body(facts, r"generic_builder::%s$" % fn)
+        if b is None:
+            res.oblige(False)
+            res.violate("C14.R5", "generic_builder::" + fn, "anchor missing", "not found")
+            continue
+        v = M.view(facts, b)
+        I = interp()
+        st = A.State()
+        arg = A.Sym("claims") if fn == "wrap_claims" else MD.json_sym("value")
+        outs = I.run(b, [arg], st)
+        seen = set()
+        if not outs:
+            res.oblige(False)
+            res.violate("C14.R5", b["id"], "no outcome", "abstract interpretation found no path (fail closed)", file=v.file(), line=b["line"])
+        for o in outs:
+            cond = " & ".join(o.state.cond)
+            problems = []
+            r = I.resolve(o.state, o.value) if o.kind == "return" else None
+            if o.kind != "return" or _fpai.undecided(o):
+                problems.append("path not decided (%s; unmodelled %s)" % (o.kind, o.state.unmodelled))
+            elif fn == "wrap_claims":
+                inner = MD.deref(I, o.state, r.fields.get("0")) if isinstance(r, A.Struct) and r.variant == "Object" else None
+                lp = loop_style(I, o, "claims", inner) if not any(e[0] == "collect_map" for e in o.state.events) else None
+                if lp is not None:
+                    problems += lp
+                    if not (isinstance(r, A.Struct) and r.variant == "Object"):
+                        problems.append("the result is %r, not an object" % (r,))
+                else:
+                    st_, last = stages(o, "claims")
+                    problems += [d for k, d in st_ if k == "bad"]
+                    if [k for k, _ in st_].count("wrap") != 1:
+                        problems.append("wrap_value must be applied to every value exactly once; stages: %s" % ([k for k, _ in st_],))
+                    if not (isinstance(inner, A.Sym) and inner.name == last):
+                        problems.append("the result is %r, not the object collected from every entry of the claim map" % (r,))
+                seen.add("map")
+            else:
+                cls = [c[len("value is "):] for c in o.state.cond if c.startswith("value is ")]
+                cl = cls[0] if cls else "?"
+                inner = MD.deref(I, o.state, r.fields.get("0")) if isinstance(r, A.Struct) and r.fields else None
+                if cl == "Null":
+                    if not (isinstance(r, A.Struct) and r.variant == "Null"):
+                        problems.append("Null is mapped to %r" % (r,))
+                elif cl in ("Bool", "Number", "String"):
+                    if not (isinstance(r, A.Struct) and r.variant == cl and isinstance(inner, A.Sym) and inner.name == "value." + cl):
+                        problems.append("a %s is mapped to %r instead of itself" % (cl, r))
+                elif cl in ("Object", "Array"):
+                    st_, last = stages(o, "value." + cl)
+                    problems += [d for k, d in st_ if k == "bad"]
+                    empty = isinstance(inner, A.Seq) and inner.length == A.Aff(0) and cl == "Object" and any("is_empty" in c and not c.startswith("!") for c in o.state.cond)
+                    lp = loop_style(I, o, "value." + cl, inner, array=(cl == "Array")) if not st_ and not empty else None
+                    if not (isinstance(r, A.Struct) and r.variant == cl):
+                        problems.append("an %s is mapped to %r" % (cl, r))
+                    elif lp is not None:
+                        problems += lp
+                    elif not empty:
+                        if [k for k, _ in st_].count("wrap") != 1:
+                            problems.append("every element must pass through wrap_value exactly once; stages: %s" % ([k for k, _ in st_],))
+                        if not (isinstance(r, A.Struct) and r.variant == cl and isinstance(inner, A.Sym) and inner.name == last):
+                            problems.append("an %s is mapped to %r, not to the %s of its wrapped elements" % (cl, r, cl))
+                else:
+                    problems.append("unexpected value class %s" % cl)
+                seen.add(cl)
+            ok = not problems
+            res.oblige(ok)
+            if ok:
+                res.inst("C14.R5", "%s [%s]: every entry handed on (%s)" % (fn, cond[:60], "element-wise" if fn == "wrap_claims" or cl in ("Object", "Array") else "identity"))
+            else:
+                res.violate("C14.R5", b["id"], "%s alters the claim set" % fn, "; ".join(sorted(set(problems)))[:500], file=v.file(), line=b["line"])
+        need = {"map"} if fn == "wrap_claims" else {"Null", "Bool", "Number", "String", "Array", "Object"}
+        if not need <= seen:
+            res.oblige(False)
+            res.violate("C14.R5", b["id"], "partition not covered", "abstract interpretation must cover %s; covered %s (fail closed)" % (sorted(need), sorted(seen)), file=v.file(), line=b["line"])
 
 
 def writers(res, facts):
